@@ -71,21 +71,145 @@ SEQ_TRUST = ["hashbrown raw-entry API and dashmap behave as documented (modelled
              "allocation never fails; usize arithmetic in the arenas is Nat (no overflow)",
              "serde_json text layer is exercised, not modelled"]
 
+# --------------------------------------------------------------------------------------------
+# concurrent scenarios: schedule replay through the hooks
+
+def hx(s):
+    return s.encode().hex() if s else "-"
+
+
+def conc_scenarios(tier, seed, which):
+    """List of (header lines, generation directive). Strings are chosen by the caller's shard probe."""
+    n = 25 if tier == "quick" else 400
+    ex = 300 if tier == "quick" else 5000
+    S = []
+    if which in ("C03", "C02"):
+        S.append((["conc 4294967295 4 max", f"cthread i:{hx('aa')} g:{hx('aa')}", f"cthread i:{hx('aa')} r:0"], [f"cexhaust {ex}"]))
+    if which in ("C03", "C01"):
+        S.append((["conc 4294967295 4 max", f"cthread s:{hx('aa')} l", f"cthread g:{hx('aa')} g:{hx('aa')} r:0"], [f"cexhaust {ex}"]))
+    if which == "C03":
+        S.append((["conc 4294967295 4 max", f"cthread i:{hx('aa')} i:{hx('bb')}", f"cthread i:{hx('bb')} i:{hx('aa')}"], [f"cgen {seed} {n * 3}"]))
+        S.append((["conc 4294967295 4 max", f"cthread s:{hx('aa')}", f"cthread i:{hx('aa')}", f"cthread g:{hx('aa')} c:0 l"], [f"cgen {seed + 1} {n * 2}"]))
+        S.append((["conc 4294967295 3 max", f"cthread i:{hx('p1')} i:{hx('q2')}", f"cthread i:{hx('r3')} g:{hx('p1')}", f"cthread s:{hx('q2')} r:1", f"cthread l g:{hx('r3')} c:2"], [f"cgen {seed + 2} {n * 2}"]))
+    if which in ("C03", "C07"):
+        # racing for the last keys
+        S.append((["conc 2 8 max", f"cthread i:{hx('k1')}", f"cthread i:{hx('k2')}", f"cthread s:{hx('k3')} g:{hx('k1')}"], [f"cgen {seed + 3} {n * 2}", f"cexhaust {ex}"]))
+        pre = " ".join(hx("f%03d" % i) for i in range(253))
+        S.append((["conc 255 4096 max", f"cprefill {pre}", f"cthread i:{hx('zz1')} l", f"cthread i:{hx('zz2')} g:{hx('zz1')}", f"cthread s:{hx('zz3')}"], [f"cgen {seed + 4} {n}"]))
+    if which in ("C03",):
+        # memory failures in flight: block 4, limit 8
+        S.append((["conc 4294967295 4 8", f"cthread i:{hx('abcde')} g:{hx('abcde')}", f"cthread i:{hx('vwxyz')} l", f"cthread i:{hx('ab')}"], [f"cgen {seed + 5} {n * 2}"]))
+    return S
+
+
+def conc_stream(which, klass=0):
+    def run(ctx):
+        name = f"conc:{which}"
+        work = ctx["work"]
+        prefix = os.path.join(work, f"conc-{which}-{ctx['seed']}")
+        res = {"name": name, "I": [], "M": [], "stats": {}, "samples": []}
+        for ext in ("f0", "ops", "impl", "oracle", "stats", "model", "progress"):
+            try:
+                os.remove(f"{prefix}.{ext}")
+            except FileNotFoundError:
+                pass
+        tier = "thorough" if (ctx["tier"] == "thorough" or ctx.get("search")) else "quick"
+        scen = conc_scenarios(tier, ctx["seed"], which)
+        f0 = prefix + ".f0"
+        with open(f0, "w") as f:
+            for header, _ in scen:
+                f.write("\n".join(header) + "\n")
+        rc, shards = sh([os.path.join(BIN, "conc"), "shards", f0], timeout=600)
+        if rc != 0:
+            res["M"].append({"kind": "harness run", "what": f"{name}: shard probe failed", "log": shards[-500:]})
+            return res
+        shard_lines = [l for l in shards.splitlines() if l.startswith("cshard")]
+        if not ctx["driver_ok"]:
+            res["M"].append({"kind": "driver", "what": f"{name}: the model driver is not available to generate schedules"})
+            return res
+        # expand generation directives with the model
+        import subprocess
+        ops = []
+        n_sched = 0
+        for header, gens in scen:
+            block = header[:1] + shard_lines + header[1:]
+            p = subprocess.run([vlib.DRIVER], input="\n".join(block + gens) + "\n", stdout=subprocess.PIPE, text=True)
+            outl = p.stdout.splitlines()
+            cruns = [l for l in outl if l.startswith("crun")]
+            cruns = list(dict.fromkeys(cruns))
+            # free schedules: arbitrary thread sequences, not restricted to what the model considers
+            # enabled (a released thread that blocks simply proceeds later); oracle-only
+            import random
+            rnd = random.Random(ctx["seed"] * 7919 + len(ops))
+            nthreads = sum(1 for h in header if h.startswith("cthread"))
+            nfree = (12 if tier == "quick" else 200) * (5 if ctx.get("search") else 1)
+            frees = []
+            for _ in range(nfree):
+                ln = rnd.randint(4, 8 * nthreads)
+                frees.append("cfree " + ",".join(str(rnd.randrange(nthreads)) for _ in range(ln)))
+            n_sched += len(cruns) + len(frees)
+            ops += block + cruns + frees
+        with open(prefix + ".ops", "w") as f:
+            f.write("\n".join(ops) + "\n")
+        open(prefix + ".oracle", "w").close()
+        # replay on the implementation (restart after a hang)
+        start = 0
+        hangs = 0
+        while True:
+            rc, out = sh([os.path.join(BIN, "conc"), "run", prefix + ".ops", prefix, str(start), str(klass)], timeout=3600)
+            prog = open(prefix + ".progress").read().strip() if os.path.exists(prefix + ".progress") else "0"
+            if rc == 0 and prog == "done":
+                break
+            hangs += 1
+            line = int(prog) if prog.isdigit() else start
+            with open(prefix + ".impl", "a") as f:
+                f.write("hang\n")
+            with open(prefix + ".oracle", "a") as f:
+                f.write(f"{which} hang-or-crash :: the replay of schedule line {line + 1} did not complete: {out[-200:]!r} :: {ops[line] if line < len(ops) else ''}\n")
+            start = line + 1
+            if hangs > 20 or start >= len(ops):
+                break
+        for line in read_lines(prefix + ".oracle"):
+            parts = line.split(" ", 1)
+            # failures of the interning protocol count for every property whose mechanism is replayed here
+            body = parts[1] if len(parts) > 1 else ""
+            fp = body.split(" :: ")[0].replace(" ", "_")
+            res["I"].append({"stream": name, "fingerprint": fp, "what": body, "ops_file": prefix + ".ops"})
+        ok, err = run_driver(prefix + ".ops", prefix + ".model")
+        if not ok:
+            res["M"].append({"kind": "driver run", "what": f"{name}: driver failed: {err}"})
+        else:
+            n, dis = diff_streams(prefix + ".ops", prefix + ".impl", prefix + ".model")
+            for d in dis:
+                d["stream"] = name
+                d["ops_file"] = prefix + ".ops"
+                res["M"].append(d)
+            res["stats"]["lines_compared"] = n
+        res["stats"].update({"scenarios": len(scen), "schedules_replayed": n_sched, "hangs": hangs})
+        imp = read_lines(prefix + ".impl")
+        for i, l in enumerate(ops):
+            if l.startswith("crun") and len(res["samples"]) < 2 and i < len(imp):
+                res["samples"].append({"schedule": l, "result": imp[i]})
+        return res
+    run.__name__ = f"conc_{which}"
+    return run
+
+
 import probes
 
 PROPS = {
     "C01": {
-        "streams": [seq_stream("core", "C01"), seq_stream("views", "C01")],
+        "streams": [seq_stream("core", "C01"), seq_stream("views", "C01"), conc_stream("C01")],
         "trusted_base": SEQ_TRUST,
         "assumptions": ["concurrent interner: one-thread semantics here; schedules are C03/C05"],
     },
     "C02": {
-        "streams": [seq_stream("core", "C02"), seq_stream("growth", "C02")],
+        "streams": [seq_stream("core", "C02"), seq_stream("growth", "C02"), conc_stream("C02")],
         "trusted_base": SEQ_TRUST,
         "assumptions": ["concurrent interner: one-thread semantics here; the re-check under the shard lock is C03"],
     },
     "C07": {
-        "streams": [seq_stream("exhaust", "C07"), seq_stream("mem", "C07")],
+        "streams": [seq_stream("exhaust", "C07"), seq_stream("mem", "C07"), conc_stream("C07")],
         "trusted_base": SEQ_TRUST + ["Rodeo: a failing call returns no new state in the model; that the code mutated nothing is checked by the post-failure sweeps of the correspondence run"],
         "assumptions": [],
     },
@@ -155,6 +279,14 @@ PROPS = {
         "trusted_base": ["rustc's borrow checker behaves on the three-statement probes as LassoModel/Borrow.lean says (validated on the whole matrix, error code included, on every run)"],
         "assumptions": [],
     },
+    "C03": {
+        "streams": [conc_stream("C03")],
+        "trusted_base": ["dashmap: a shard is a hash table behind an RwLock, get/entry/insert take the locks they say (modelled, not verified)",
+                         "atomics on a sequentially consistent interleaving at the granularity of the schedule points (every atomic op, lock acquisition and map insert of the interning path has its own point)",
+                         "store_str is one step at this granularity (its own interleavings: C05); string contents are stable (C01/C05)",
+                         "len() is treated as one atomic read of the count (dashmap sums shard lengths one by one)"],
+        "assumptions": [],
+    },
     "C11": {
         "streams": [stream_keys],
         "trusted_base": ["rustc's layout of Option<NonZero*> (size_of check is harness-only)",
@@ -162,3 +294,5 @@ PROPS = {
         "assumptions": ["64-bit target (usize = 64 bits)"],
     },
 }
+
+
